@@ -21,6 +21,9 @@ structure Cfg where
   closeSendNoopWhenDone : Bool
   finishOrder : Bool
   sendTeardownNoRst : Bool
+  /-- `cs.teardown` cancels the stream context before it unregisters the call (a read loop woken by the
+      unregistration then always finds the context ended and sends the reset). -/
+  teardownCancelsFirst : Bool
   openFailureTearsDown : Bool
   unaryBadMetaIsErrorReply : Bool
   unaryCtxFollowsConn : Bool
@@ -44,6 +47,6 @@ structure Cfg where
 
 /-- every flag as the property theorems need it (= the repaired tree) -/
 def Cfg.good : Cfg :=
-  { idAllocAtomic := true, registerChecksErr := true, unaryDeferUnregister := true, dispatchOutsideLock := true, closedPrefersCtx := true, okStatusIsSuccess := true, statsHeaderNilSafe := true, recvRechecksDoneOnCtx := true, resetIsError := true, badMetaSetsErr := true, trailerNoPanic := true, closeSendNoopWhenDone := true, finishOrder := true, sendTeardownNoRst := true, openFailureTearsDown := true, unaryBadMetaIsErrorReply := true, unaryCtxFollowsConn := true, workerHandoffSelectsOnConn := true, forwardSelectsOnStreamDone := true, resetViaWriter := true, timeoutSaturates := true, timeoutDigitsOnly := true, badSourceIsIgnored := true, enqueueNonBlocking := true, removeComparesIdentity := true, errReportSelectsOnCtx := true, demuxCancelUsesDone := true, demuxHandoffSelects := true, httpCleanUsesDone := true, httpReadHonoursCtx := true, httpWriteHonoursCtx := true, chainShape := true, streamOnceGuards := true }
+  { idAllocAtomic := true, registerChecksErr := true, unaryDeferUnregister := true, dispatchOutsideLock := true, closedPrefersCtx := true, okStatusIsSuccess := true, statsHeaderNilSafe := true, recvRechecksDoneOnCtx := true, resetIsError := true, badMetaSetsErr := true, trailerNoPanic := true, closeSendNoopWhenDone := true, finishOrder := true, sendTeardownNoRst := true, teardownCancelsFirst := true, openFailureTearsDown := true, unaryBadMetaIsErrorReply := true, unaryCtxFollowsConn := true, workerHandoffSelectsOnConn := true, forwardSelectsOnStreamDone := true, resetViaWriter := true, timeoutSaturates := true, timeoutDigitsOnly := true, badSourceIsIgnored := true, enqueueNonBlocking := true, removeComparesIdentity := true, errReportSelectsOnCtx := true, demuxCancelUsesDone := true, demuxHandoffSelects := true, httpCleanUsesDone := true, httpReadHonoursCtx := true, httpWriteHonoursCtx := true, chainShape := true, streamOnceGuards := true }
 
 end Goat
